@@ -92,6 +92,9 @@ ADD = {
  "C15": " Replacement alphabet includes non-ASCII digits, letters that match mnemonics only through unicode case folding, string literals above U+00FF. Four fault kinds at every token are repeated with CRLF and CR line endings.",
 }
 
+# clauses added in the seventh round / with defect D9
+ADD2 = {'C02': ' Dependency templates through every register x1..x31.', 'C06': ' Assembled texts (operands >= 4096 included) executed against the reference machine built from the assembled words; the default size given explicitly.', 'C07': ' Dependency templates through every register x1..x31 on simulations built three ways (constructor, via a state, with a neighbour simulation of the opposite hazard switch); assembled programs with declared data under every data cache and penalty.', 'C08': ' Dependency templates through every register on simulations built three ways (incl. a neighbour simulation with the interlock ON created afterwards).', 'C09': ' The data-memory table is an operation of the closed control spaces (two of three over a preloaded store).', 'C12': ' Assembled programs with declared data of every kind: the invariant right after load_program and after every step.', 'C13': ' Reloads after a rejected load are also compared between fresh interpreters; a configuration is abandoned after four watchdog timeouts.', 'C14': ' pc-relative forms in states whose instruction memory starts at another address.', 'C16': ' A program with more than 10 000 characters of output and a TOY program executing non-canonical words.', 'C19': ' The default size given explicitly.', 'C20': ' Machines with 2 / 4 / 8 / 16 words whose programs end at or branch to the last word.', 'C04': ' Comments containing form feeds, vertical tabs and unicode line separators (genuine defect D9).', 'C15': ' Control characters at which str.splitlines() ends a line, inside comments and strings (genuine defect D9).'}
+
 NA_REASON = "check not built yet at this commit (work in progress; the technique applies, see DESIGN.md)"
 
 
@@ -103,7 +106,7 @@ def main():
         mod = os.path.join(HERE, "vf", "checks", pid.lower() + ".py")
         if pid in T and os.path.exists(mod):
             level, ref, tech, text, note = T[pid]
-            text = text + ADD.get(pid, "")
+            text = text + ADD.get(pid, "") + ADD2.get(pid, "")
             checks.append(dict(property_id=pid, quick_cmd=f"./check {pid} quick", thorough_cmd=f"./check {pid} thorough",
                                evidence_file=f"/verif/evidence/{pid}.json", replay_cmd_template=f"./check {pid} --replay {{path}}",
                                engine="vf", level_claimed=dict(category=level, text=text, design_ref="DESIGN.md section " + ref),
